@@ -125,6 +125,7 @@ def check(program: Program, run: Run) -> None:
         "graphs depends on eq/hash coherence, discharged by C17 and re-evaluated here. Behaviour on generated call sequences is not computed.")
     run.rule("R1 guard table: raise of the documented exception, reading the guarded attributes, dominating the protected write")
     run.rule("R2 join availability = FROM list + update table + CTEs (do_join) | items of existing joins | item being joined; criterion tables from all fields; JoinException iff difference non-empty")
+    run.rule("R5 (inherited from C01) the state a guard reads is not writable through another object: a guard over an attribute that a sibling/receiver can mutate in place fires for the wrong object")
     run.rule("R4 no attribute is read from a value whose declared class has a value-manufacturing __getattr__ unless that class defines the attribute (else a valid operand of another subclass yields a Field and a TypeError instead of SQL or a library exception)")
     run.rule("R3 set arithmetic exactness inherits C17 (hash/eq coherence of Table, Field collection)")
     n_ok = 0
@@ -291,6 +292,25 @@ def check(program: Program, run: Run) -> None:
 
     # ---- R4
     _manufactured_reads(program, run)
+
+    # ---- R5: a guard decides on the object's own state; if C01 shows that state is shared with (and mutated through)
+    # another object, the invalid construction is accepted (or the valid one rejected) depending on what a sibling did
+    from . import c01
+    sub1 = Run("C01", run.tier)
+    c01.check(program, sub1)
+    guard_attrs = {}
+    for qual, attrs, exc, protects, opt in G:
+        cls_name = qual.split(".")[0]
+        for a in attrs:
+            guard_attrs.setdefault(a, []).append((cls_name, qual, exc))
+    n5 = 0
+    for a, users in sorted(guard_attrs.items()):
+        hits = [fd for fd in sub1.findings if not fd.info and fd.key.startswith(("C01/shared-mutate:", "C01/deep-mutate:")) and fd.key.rsplit(":", 1)[1].split("[")[0].split("@")[0] == a
+                and any(program.find_cls(fd.key.split(":")[1].split(".")[0]) is not None and (program.cls(fd.key.split(":")[1].split(".")[0]).qualname == u[0] or program.cls(u[0]).is_subclass_of(program.cls(fd.key.split(":")[1].split(".")[0])) or program.cls(fd.key.split(":")[1].split(".")[0]).is_subclass_of(program.cls(u[0]))) for u in users)]
+        n5 += 1
+        run.ob("C14/R5 (inherited from C01) state read by a guard is private to the object", a, not hits, detail=f"guards: {[u[1] for u in users][:3]}")
+        for fd in hits:
+            run.finding(f"C14/guard-state-shared:{users[0][1]}:{a}", f"the {users[0][2]} guard in {users[0][1]} decides on `{a}`, but that state is shared between an object and its copies: " + fd.what, where=fd.where, rule="R5 (inherited from C01)")
 
     # ---- R3: inherited obligations from C17
     from . import c17
